@@ -54,6 +54,16 @@ def core_mixed(t, nadds, kinds=('rm', 'rep', 'fwd', 'str', 'set')):
             pre = [['add', s, None] for s in w]
             for tail in tails(t, k, kinds):
                 yield pre + [tail]
+                if tail[0] == 'add' and tail[2] is not None and tail[2] in (0, 1):
+                    yield pre + [tail, list(tail)]                     # the same refused offer made twice
+                if tail[0] == 'rm':
+                    yield pre + [tail, ['rmgone', 0]]                  # remove with the stale handle afterwards
+                    for s in alpha[:6]:
+                        yield pre + [tail, ['rmgone', 0], ['add', s, None]]
+                if tail[0] == 'rep' and tail[2] in ref.DFAS[t].alpha and k and tail[2] == w[tail[1] % k]:
+                    yield pre + [tail, ['rmgone', 0]]                  # stale handle after a same-name replacement
+                    for s in alpha[:6]:
+                        yield pre + [tail, ['rmgone', 0], ['add', s, None]]
 
 
 def n_core_mixed(t, nadds):
@@ -88,10 +98,10 @@ def random_history(rnd, t, maxlen=10, profile='mixed'):
     else:
         seedwords = []
     weights = {
-        'mixed':     dict(add=6, fwd=1, rm=2, rep=1, set=1, str=1),
+        'mixed':     dict(add=6, fwd=1, rm=2, rep=1, set=1, str=1, rmgone=1),
         'addonly':   dict(add=10, fwd=0, rm=0, rep=0, set=0, str=0),
         'guided':    dict(add=8, fwd=0, rm=1, rep=0, set=0, str=1),
-        'failure':   dict(add=6, fwd=3, rm=1, rep=1, set=1, str=2),
+        'failure':   dict(add=6, fwd=3, rm=1, rep=2, set=1, str=2, rmgone=2),
         'removal':   dict(add=6, fwd=0, rm=4, rep=0, set=1, str=0),
         'serialise': dict(add=6, fwd=0, rm=2, rep=0, set=0, str=4),
         'longrun':   dict(add=12, fwd=0, rm=1, rep=0, set=0, str=0),
@@ -104,7 +114,13 @@ def random_history(rnd, t, maxlen=10, profile='mixed'):
             s = seedwords.pop(0)
             hist.append(['add', s, None]); used.append(s); nlive += 1
             continue
+        if hist and profile in ('failure', 'mixed') and rnd.random() < 0.12:
+            hist.append(list(hist[-1]))           # the same call again (a refused offer repeated verbatim)
+            continue
         k = rnd.choice(kinds)
+        if k == 'rmgone':
+            hist.append(['rmgone', rnd.randrange(4)])
+            continue
         if k == 'add':
             s = _pick_symbol(rnd, alpha, used, p_again)
             hist.append(['add', s, None]); used.append(s); nlive += 1
